@@ -257,6 +257,7 @@ def run(ctx):
     compare_exhaustive(ctx, g)
     structural_equality(ctx, g)
     canonical_renumbering(ctx, g)
+    ctx.floor("chamber-indexed tables in canonical", chamber_tables(ctx, "T4-chamber-table", ctx.body("derived::canonical"), g), 1)
     code_content(ctx, g)
 
 
